@@ -41,12 +41,15 @@ func c04Scenarios(tier string) []schedh.Scenario {
 		}
 	}
 	add("chain2", map[string]string{"p/BUILD": rule("a", ":b") + rule("b")}, "//p:a")
-	add("chain3", map[string]string{"p/BUILD": rule("a", ":b") + rule("b", ":c") + rule("c")}, "//p:a")
+	if tier == "thorough" {
+		add("chain3", map[string]string{"p/BUILD": rule("a", ":b") + rule("b", ":c") + rule("c")}, "//p:a")
+		add("fanin4", map[string]string{"p/BUILD": rule("a", ":b", ":c", ":d") + rule("b") + rule("c") + rule("d")}, "//p:a")
+		add("all", map[string]string{"p/BUILD": rule("a", ":b") + rule("b") + rule("c", ":b")}, "//p:all")
+	}
 	add("diamond", map[string]string{"p/BUILD": rule("a", ":b", ":c") + rule("b", ":d") + rule("c", ":d") + rule("d")}, "//p:a")
-	add("fanin", map[string]string{"p/BUILD": rule("a", ":b", ":c", ":d") + rule("b") + rule("c") + rule("d")}, "//p:a")
+	add("fanin", map[string]string{"p/BUILD": rule("a", ":b", ":c") + rule("b") + rule("c")}, "//p:a")
 	add("twopkg", map[string]string{"p/BUILD": rule("a", "//q:b") + rule("c"), "q/BUILD": rule("b", "//p:c")}, "//p:a")
 	add("twice", map[string]string{"p/BUILD": rule("a", ":b") + rule("b")}, "//p:a", "//p:b", "//p:a")
-	add("all", map[string]string{"p/BUILD": rule("a", ":b") + rule("b") + rule("c", ":b")}, "//p:all")
 	add("provide", map[string]string{"p/BUILD": "build_rule(name=\"a\", cmd=\"FAKE\", outs=[\"a.out\"], deps=[\":b\"], requires=[\"x\"])\n" +
 		"build_rule(name=\"b\", cmd=\"FAKE\", outs=[\"b.out\"], provides={\"x\": \":c\"})\n" + rule("c")}, "//p:a")
 	add("postbuild", map[string]string{"p/BUILD": "def _pb(name, output):\n    build_rule(name=\"h\", cmd=\"FAKE\", outs=[\"h.out\"])\n    add_dep(\"a\", \":h\")\n" +
@@ -89,7 +92,12 @@ type violation struct {
 }
 
 // oracle returns (class, detail) or "".
+// softClass is a violation that is reported (once per class) without ending the evaluation of the execution or the
+// exploration: it is set by oracle and collected by the caller.
+var softClass, softDetail string
+
 func oracle(prop string, sc schedh.Scenario, obs *schedh.Obs, res *vsched.Result) (string, string) {
+	softClass, softDetail = "", ""
 	switch res.Status {
 	case "ok":
 	case "deadlock":
@@ -150,7 +158,8 @@ func oracle(prop string, sc schedh.Scenario, obs *schedh.Obs, res *vsched.Result
 	}
 	for l := range ended {
 		if terminal[l] != 1 && obs.Dropped > 0 {
-			return "results-dropped-at-shutdown", fmt.Sprintf("%s completed but its terminal result never reached the results stream: %d logged results were never delivered before Run closed the stream\n%s", l, obs.Dropped, obs.String())
+			softClass, softDetail = "results-dropped-at-shutdown", fmt.Sprintf("%s completed but its terminal result never reached the results stream: %d logged results were never delivered before Run closed the stream\n%s", l, obs.Dropped, obs.String())
+			continue
 		}
 		if terminal[l] != 1 {
 			return "not-reported", fmt.Sprintf("%s completed but has %d terminal results\n%s", l, terminal[l], obs.String())
@@ -221,9 +230,16 @@ func exploreRoots(prop string, sc schedh.Scenario, bound int, delay, timers, new
 	body := schedh.Body(sc, &obs)
 	out := workerOut{Outcomes: map[string]int{}}
 	seen := map[string]bool{}
+	softSeen := map[string]bool{}
+	hard := 0
 	st := vsched.ExploreOpt(body, vsched.Options{Bound: bound, DelayBound: delay, EarlyTimers: timers, NewestFirst: newest}, true, roots, func(r *vsched.Result) bool {
 		seen[obs.String()] = true
-		if class, detail := oracle(prop, sc, &obs, r); class != "" {
+		class, detail := oracle(prop, sc, &obs, r)
+		if softClass != "" && !softSeen[softClass] {
+			softSeen[softClass] = true
+			out.Violations = append(out.Violations, violation{Class: softClass, Scenario: sc, Choices: r.Choices, Delay: delay, Timers: timers, Newest: newest, Detail: softDetail})
+		}
+		if class != "" {
 			first := obs.String()
 			r2 := vsched.Run(vsched.Options{Prefix: r.Choices, DelayBound: delay, EarlyTimers: timers, NewestFirst: newest}, body)
 			c2, _ := oracle(prop, sc, &obs, r2)
@@ -232,12 +248,13 @@ func exploreRoots(prop string, sc schedh.Scenario, bound int, delay, timers, new
 				os.Exit(2)
 			}
 			out.Violations = append(out.Violations, violation{Class: class, Scenario: sc, Choices: r.Choices, Delay: delay, Timers: timers, Newest: newest, Detail: detail})
-			return len(out.Violations) < 3
+			hard++
+			return hard < 3
 		}
 		return true
 	}, stop)
 	out.Executions, out.Pruned, out.States, out.Transitions, out.Complete = st.Executions, st.Pruned, st.States, st.Transitions, st.Complete
-	if len(out.Violations) > 0 {
+	if hard > 0 {
 		out.Complete = true
 	}
 	out.Outcomes = st.Outcomes
@@ -291,7 +308,11 @@ func main() {
 		res := vsched.Run(vsched.Options{Prefix: v.Choices, Trace: true, DelayBound: v.Delay, EarlyTimers: v.Timers, NewestFirst: v.Newest}, schedh.Body(v.Scenario, &obs))
 		fmt.Println(vsched.FormatTrace(res.Trace))
 		fmt.Print(obs.String())
-		if c, d := oracle(*prop, v.Scenario, &obs, res); c != "" {
+		c, d := oracle(*prop, v.Scenario, &obs, res)
+		if softClass != "" {
+			r.Violate(softClass, v, softDetail)
+		}
+		if c != "" {
 			r.Violate(c, v, d)
 		}
 		os.RemoveAll(schedh.Root)
@@ -338,6 +359,7 @@ func main() {
 	jobDir := filepath.Join(lib.VerifRoot, ".work", "sched", "jobs")
 	os.MkdirAll(jobDir, 0o755)
 	const nworkers = 16
+	hardTotal := 0
 	maxBound := 1
 	if !r.Quick() {
 		maxBound = 2
@@ -369,8 +391,13 @@ func main() {
 			stat.Points = len(root.Points)
 			total.Executions++
 			total.Transitions += root.Steps
-			if c, d := oracle(*prop, sc, &obs, root); c != "" {
+			c, d := oracle(*prop, sc, &obs, root)
+			if softClass != "" {
+				total.Violations = append(total.Violations, violation{Class: softClass, Scenario: sc, Choices: root.Choices, Delay: true, Timers: timers, Newest: newest, Detail: softDetail})
+			}
+			if c != "" {
 				total.Violations = append(total.Violations, violation{Class: c, Scenario: sc, Choices: root.Choices, Delay: true, Timers: timers, Newest: newest, Detail: d})
+				hardTotal++
 				break
 			}
 			if bound == 0 {
@@ -434,7 +461,12 @@ func main() {
 				}(w, mine)
 			}
 			wg.Wait()
-			if len(total.Violations) > 0 {
+			for _, v := range total.Violations {
+				if v.Class != "results-dropped-at-shutdown" {
+					hardTotal++
+				}
+			}
+			if hardTotal > 0 {
 				break
 			}
 			if !complete {
@@ -447,7 +479,7 @@ func main() {
 		}
 		stats = append(stats, stat)
 		fmt.Fprintf(os.Stderr, "%s %s: bound %d complete, %d executions, %d choice points in the default run\n", *prop, sc.Name, stat.Bound, stat.Executions, stat.Points)
-		if len(total.Violations) > 6 {
+		if hardTotal > 6 {
 			break
 		}
 	}
